@@ -10,8 +10,10 @@
 //!  * ECDSA        r = uf(P384_SIG, ideal, key = pk(49) ‖ signer-private bytes, msg = digest ‖ [0], out 48), 0 < r < n
 //!                 s = uf(P384_SIG, ideal, key = pk(49) ‖ signer-private bytes, msg = digest ‖ [1], out 48), 0 < s < n
 //!                 aws-lc signs with a fresh random nonce k: the signer-private bytes are 15 fresh arbitrary bytes per call.
-//!                 IDEAL SIGNATURE: verify(pk, digest, r‖s) iff r and s were produced by the signing function for exactly
-//!                 (pk, digest) — `was_output_of_kp` on the 49-byte key prefix.
+//!                 s is ANY value in 1..n-1, low or high: aws-lc does not normalise s (and neither does the specification).
+//!                 IDEAL SIGNATURE WITH MALLEABILITY: verify(pk, digest, r‖s) iff r was produced by the signing function for
+//!                 exactly (pk, digest) and s OR n - s was produced for it (`was_output_of_kp` on the 49-byte key prefix): the
+//!                 twin (r, n - s) of a signature verifies too, as for real ECDSA. Same rule in models/p384 and vspec::v3.
 //!  * ECDH         xk(48) = uf(P384_DH, non-ideal, key = [], msg = min(xA, xB) ‖ max(xA, xB)) where xA, xB are the 48-byte
 //!                 X coordinates of the two public points (lexicographic order => commutative; sign of y irrelevant).
 //!  * scalar range exact big-endian comparison with the group order n (no abstraction).
@@ -99,10 +101,26 @@ pub fn ecdsa_sign(pk: &[u8; 49], private: &[u8; 15], digest: &[u8]) -> ([u8; 48]
     (r, s)
 }
 
+/// n - v, 48-byte big-endian, for 0 < v < n. Branch-free ripple-borrow subtraction, constant bound.
+pub fn neg_mod_n(v: &[u8; 48]) -> [u8; 48] {
+    let mut o = [0u8; 48];
+    let mut borrow: u16 = 0;
+    let mut i = 48;
+    while i > 0 {
+        i -= 1;
+        let t = 256 + ORDER[i] as u16 - v[i] as u16 - borrow; // 0 ..= 511
+        o[i] = (t & 0xff) as u8;
+        borrow = 1 - (t >> 8);
+    }
+    o
+}
+
+/// r, s are in 1..n-1 (checked by the caller). No `uf` call: table look-ups only.
 pub fn ecdsa_verify(pk: &[u8; 49], digest: &[u8], r: &[u8; 48], s: &[u8; 48]) -> bool {
     let (m0, l0) = sig_msg(digest, 0);
     let (m1, l1) = sig_msg(digest, 1);
-    was_output_of_kp(alg::P384_SIG, pk, &m0[..l0], r) & was_output_of_kp(alg::P384_SIG, pk, &m1[..l1], s)
+    was_output_of_kp(alg::P384_SIG, pk, &m0[..l0], r)
+        & (was_output_of_kp(alg::P384_SIG, pk, &m1[..l1], s) | was_output_of_kp(alg::P384_SIG, pk, &m1[..l1], &neg_mod_n(s)))
 }
 
 pub fn ecdh(xa: &[u8], xb: &[u8]) -> [u8; 48] {
